@@ -166,6 +166,11 @@ def check(case, ctx) -> Result:
         maximal = [a["v"] for a in acc3 if not any(b["sb"] > a["sa"] for b in acc3)]
         if acc3 and not any(v in pos for v in maximal):
             out.append(("latest_state_lost", f"none of the last accepted values before the stop race ({maximal[:6]}) was ever delivered; delivered {flat}"))
+    # whatever was accepted and not delivered sat in the queue when the run ended: it cannot be more than the capacity
+    if cap > 0 and policy != "conflating":
+        undelivered = [v for v in accepted if v not in pos]
+        if len(undelivered) > cap:
+            out.append(("accepted_beyond_capacity_at_stop", f"{len(undelivered)} accepted values were never delivered ({sorted(undelivered)[:8]}) but the queue holds at most {cap}: some send was accepted although the queue was full or the source had stopped"))
     # capacity
     if cap > 0:
         over = [s for s in sends if s["pend"] is not None and s["pend"] > cap]
